@@ -19,6 +19,8 @@ def mk_db_op(op, cls_name, other_cls=None):
     for r_ in RADIX:
         TOTAL *= r_
 
+    NBLOCKS = W.nblocks(TOTAL)
+
     def check(code: int) -> bool:
         """
         pre: 0 <= code < TOTAL
